@@ -180,6 +180,12 @@ def check_doc(case) -> Res:
             got = real_receipts(warns)
             if got != exp:
                 fail("parse_with_warnings:" + mdiff(exp, got), ch, f"text={r.text!r} receipts={got}", exp)
+            # advisory receipts are not compared one by one, but each KIND needs a cause the model can see
+            subs = {w.get("subtype") for w in warns if isinstance(w, dict)}
+            if "duplicate_key" in subs and not _model_has_duplicate_assignments(d):
+                fail("advisory-without-cause:duplicate_key", ch, f"text={r.text!r} warnings={[w for w in warns if w.get('subtype') == 'duplicate_key'][:2]}", "no duplicate sibling assignment in the document")
+            if "deep_nesting" in subs and _model_list_depth(d) < 5:
+                fail("advisory-without-cause:deep_nesting", ch, f"text={r.text!r} depth={_model_list_depth(d)}", "brackets nested fewer than 5 deep")
             # (2) octave_validate
             rv = loop.run_until_complete(t["v"].execute(content=r.text, schema="META"))
             steps += 1
@@ -283,8 +289,41 @@ def check_token_canonical(case) -> Res:
     return Res("clean", nontrivial=c1, transitions=3)
 
 
+def _model_has_duplicate_assignments(d):
+    def w(nodes):
+        keys = [n[1] for n in nodes if n[0] == "A"]
+        if len(set(keys)) < len(keys):
+            return True
+        return any(w(n[3]) for n in nodes if n[0] == "B") or any(w(n[4]) for n in nodes if n[0] == "S")
+    mk = [k for k, _ in (d.get("meta") or [])]
+    return w(d["body"]) or len(set(mk)) < len(mk)
+
+
+def _model_list_depth(d):
+    def vd(v):
+        if v[0] == "list":
+            return 1 + max([vd(x) for x in v[1]] + [0])
+        if v[0] in ("map", "metamap"):
+            return max([vd(x) for _, x in v[1]] + [0])
+        if v[0] == "holo":
+            return 2
+        return 0
+
+    def w(nodes):
+        m = 0
+        for n in nodes:
+            if n[0] == "A":
+                m = max(m, vd(n[2]))
+            elif n[0] == "B":
+                m = max(m, w(n[3]))
+            elif n[0] == "S":
+                m = max(m, w(n[4]))
+        return m
+    return max(w(d["body"]), max([vd(v) for _, v in (d.get("meta") or [])] + [0]))
+
+
 def specific_docs():
-    S, A, B, Lst, Doc, Sec, Map = dm.S, dm.A, dm.B, dm.Lst, dm.Doc, dm.Sec, dm.Map
+    S, A, B, Lst, Doc, Sec, Map, I = dm.S, dm.A, dm.B, dm.Lst, dm.Doc, dm.Sec, dm.Map, dm.I
     out = []
     ml = S("l1\nl2", "quoted")
     out.append(("R:multiline-triple-then-alias", Doc([A("K", Lst(ml, S("X→Y", "bare"))), A("M", S("P⊕Q", "bare"))])))
@@ -297,6 +336,10 @@ def specific_docs():
                                            sentinel="5.1.0", meta=[("TYPE", S("T")), ("E", S("X⇌Y", "bare"))], separator=True)))
     out.append(("R:frontmatter-line-boundaries", Doc([A("K", S("A→B", "bare")), A("M", S("hello world", "quoted"))],
                                                      frontmatter="a: x\u2028y\nb: p\x0cq\x85r\x0bs\nc: (3)", meta=[("TYPE", S("T"))], separator=True)))
+    out.append(("R:many-empty-lists", Doc([A(f"E{i}", Lst()) for i in range(5)] + [B("B1", [A("F", Lst()), A("G", Lst(Lst(), Lst()))]), A("L", Lst(S("a"), Lst(S("b"), Lst(S("c"))))),
+                                           A("M", S("two words", "quoted"))], meta=[("TYPE", S("T")), ("EM", Lst())], separator=True)))
+    out.append(("R:same-named-child-blocks", Doc([B("PLAN", [B("STEP", [A("K", I(1))]), B("STEP", [A("K", I(2))]), A("N", S("A→B", "bare"))]),
+                                                  Sec("1", "S", [B("STEP", [A("K", I(1))]), B("STEP", [A("K", I(2))])]), B("PLAN", [A("Z", I(3))])])))
     out.append(("R:after-zone", Doc([A("Z", dm.Zone("a -> b\n\"\"\"x\"\"\"\nhello world")), A("K", S("A→B", "bare")), A("M", S("hello world", "quoted"))])))
     out.append(("R:after-comment", Doc([A("K", S("A→B", "bare"), lead=("c -> d", 'say """x"""'), trail="t -> u"), A("M", S("two words", "quoted"))])))
     out.append(("R:nested", Doc([B("B1", [B("B2", [A("K", S("A→B", "bare")), A("W", S("deep words here", "quoted"))]), A("T", S("""tq""", "quoted"))]),
